@@ -138,9 +138,35 @@ def run(ctx):
                     if v != 0 and nan not in ([], [0]) and len(nan) != n and r.random() < 0.5:
                         continue
                     reqs.append({'cls': c['name'], 'n': n, 'nan': nan, 'variant': v, 'table': trow, 'origin': 'gen'})
+    # the same conversions on messages that went through the wire format: pack -> unpack images and what the stream decoder
+    # returns (decoded messages hold construct containers where Python-built ones hold numpy arrays)
+    for c in classes:
+        resolved = c['resolved'].split('.')[0]
+        trow = {row['key']: {'kind': row['kind'], 'path': row['path']} for row in tclasses[resolved]['rows']} if resolved in tclasses else None
+        for rep in ('unpack', 'decoder'):
+            if rep == 'decoder' and c['name'] == 'MeasurementDetails':
+                continue
+            for n in range(0, N + 1):
+                subsets = [[]] if not (c['has_p1'] and n > 0) else ([[], [0], list(range(n))] + [[i for i in range(n) if r.random() < 0.5] for _ in range(2)])
+                for nan in subsets:
+                    reqs.append({'cls': c['name'], 'n': n, 'nan': nan, 'variant': 0, 'rep': rep, 'table': trow, 'origin': 'wire'})
+    # histories on one MessageData: convert, change the message list (same count or not), convert again
+    hist = []
+    for c in classes:
+        if not c['has_p1'] or c['name'] == 'MeasurementDetails':
+            continue
+        for t0 in (1.0, 1000.0, 5000.0, 90000.0, 1.0e6, 1.3e9):
+            for op in ('slide', 'slide-add', 'replace-shifted', 'replace-middle', 'append', 'same'):
+                for n in ((2, 5) if not ctx.thorough else (1, 2, 3, 5, 9)):
+                    if op == 'replace-middle' and n < 3:
+                        continue
+                    dt = r.choice([0.01, 0.1, 1.0])
+                    hist.append({'history': {'cls': c['name'], 'n': n, 't0': t0, 'dt': dt, 'shift': r.choice([dt, dt / 2, 0.001]), 'op': op},
+                                 'cls': c['name'], 'n': n, 'nan': [], 'variant': 0, 'origin': 'history'})
+    reqs += hist
     reqs.sort(key=lambda q: (q['origin'] != 'corpus', q['n'], len(q['nan'])))
     ctx.log('%d cases over %d classes' % (len(reqs), len(classes)))
-    res = harness([json.dumps({k: q[k] for k in ('cls', 'n', 'nan', 'variant', 'table') if k in q}) for q in reqs])
+    res = harness([json.dumps({k: q[k] for k in ('cls', 'n', 'nan', 'variant', 'table', 'rep', 'history') if k in q}) for q in reqs])
 
     # ---- NaN-removal model / spec on the same shapes -----------------------------------------------------
     mlines, owners = [], []
@@ -154,7 +180,10 @@ def run(ctx):
 
     seen = set()
     for q, d in zip(reqs, res):
-        ctx.case((q['cls'], q['n'], tuple(q['nan']), q['variant']))
+        ctx.case((q['cls'], q['n'], tuple(q['nan']), q['variant'], q.get('rep'), json.dumps(q.get('history'), sort_keys=True)))
+        ctx.count('origin:' + q['origin'] + (':' + q['rep'] if q.get('rep') else ''))
+        if d.get('skipped'):
+            ctx.count('wire-skipped:' + d['skipped'].split(':')[0][:60]); continue
         if 'error' in d:
             raise RuntimeError('c16 harness failed on %r: %s\n%s' % ({k: q[k] for k in ('cls', 'n', 'nan', 'variant')}, d['error'], d.get('trace', '')))
         for k, v in d['stats'].items():
@@ -172,6 +201,12 @@ def run(ctx):
             sig = {'class': q['cls'], 'key': iss['key'], 'kind': iss['kind']}
             if iss['kind'] == 'nan-removal-inconsistent':
                 sig['ndim'] = iss['ndim']
+            if iss['kind'] == 'arrays-do-not-describe-the-current-messages':
+                sig['op'] = iss['op']; sig['first_last_time_changed'] = iss['first_last_time_changed']
+            if iss['kind'] == 'output-depends-on-field-container-type':
+                sig['representation'] = iss['representation']
+            if iss['kind'] == 'repeated-conversion-raises':
+                sig['exception'] = iss['exception']
             ctx.count('issue:' + iss['kind'])
             key = json.dumps(sig, sort_keys=True)
             if key in seen:
@@ -204,7 +239,9 @@ def run(ctx):
                             'message or of its embedded details against the field values (enums as ints, Timestamp as float seconds, NaN = NaN), its time axis found by '
                             'appending one message; declared time-independent outputs against the first message; every non-opaque generated row interpreted on the same '
                             'messages against the output; MessageData.to_numpy(remove_nan_times=True) against the raw arrays with the invalid positions removed along '
-                            'the time axis, and against the extracted model and SPEC of the removal. A case is distinct by (class, length, invalid positions, variant).'
+                            'the time axis, and against the extracted model and SPEC of the removal. Each class is also converted from the pack->unpack image and from the stream decoder output of its messages (compared with Python-built twins holding the same values), '
+                            'and in histories on one MessageData (convert; slide / replace / append / keep; convert again) at P1 times 1 s .. 1.3e9 s. '
+                            'A case is distinct by (class, length, invalid positions, variant, representation, history).'
                             % (len(classes), sum(1 for c in classes if c['resolved'].split('.')[0] == table['generic_base']), N,
                                'all (length <= 4) / sampled' if ctx.thorough else 'all'))
     ctx.coverage['exhaustive'] = False
@@ -217,7 +254,7 @@ def run(ctx):
 
 
 def strip(q):
-    return {k: q[k] for k in ('cls', 'n', 'nan', 'variant')}
+    return {k: q[k] for k in ('cls', 'n', 'nan', 'variant', 'rep', 'history') if k in q}
 
 
 def describe(q, iss):
@@ -227,6 +264,16 @@ def describe(q, iss):
         return '%s[%r] does not hold the field %s%s of the messages%s: got %s, fields are %s' % (
             head, iss['key'], 'details.' if iss.get('owner') == 'details' else '', iss['key'],
             (' (it mirrors %s)' % iss['mirrors']) if iss.get('mirrors') else '', iss.get('got'), iss.get('want'))
+    if k == 'arrays-do-not-describe-the-current-messages':
+        h = q['history']
+        return ('MessageData(%s): to_numpy(), then %s on %d messages at P1 time %s s (spacing %s s), then to_numpy() again: attributes %s still hold the '
+                'previous conversion instead of the current messages' % (q['cls'], iss['op'], h['n'], h['t0'], h['dt'], iss['stale_keys']))
+    if k == 'repeated-conversion-raises':
+        h = q['history']
+        return ('MessageData(%s): to_numpy() on %d messages, %s, then to_numpy() again raises %s: %s' % (q['cls'], h['n'], iss['op'], iss['exception'], iss['text']))
+    if k == 'output-depends-on-field-container-type':
+        return ('%s on messages that went through %s: %r has shape %s, the same field values in Python-built messages give %s'
+                % (head, iss['representation'], iss['key'], iss['shape_decoded_messages'], iss['shape_python_built_messages']))
     if k == 'nan-removal-inconsistent':
         return 'MessageData.to_numpy(remove_nan_times=True) for %s with %d invalid P1 time(s): %r keeps shape %s (raw %s) while the time-dependent arrays lose the invalid positions (expected %s)' % (
             q['cls'], iss['invalid'], iss['key'], iss['after_shape'], iss['raw_shape'], iss['expected_shape'])
@@ -240,7 +287,7 @@ def replay(ctx, rec):
         print(json.dumps(rec, indent=1)[:3000])
         return 0
     table = gen_c16.generate()
-    d = harness([json.dumps({k: q[k] for k in ('cls', 'n', 'nan', 'variant')})])[0]
+    d = harness([json.dumps(strip(q))])[0]
     print('REQUEST', json.dumps(strip(q)))
     print('IMPL issues (implementation vs fields / vs positional removal):')
     for iss in d.get('issues', []):
